@@ -86,11 +86,23 @@ func vpH_C15_of_object() {
 	c := []CollectionPath{Likes, Shares, Replies}[which]
 	ob := &Object{ID: id, Type: NoteType}
 	var holder Item = ob
-	if vpBool() {
+	switch vpChoice(3) {
+	case 1:
 		// likes, shares and replies of an actor: an actor is an object too
 		act := &Actor{ID: id, Type: []ActivityVocabularyType{PersonType, ServiceType, GroupType}[vpChoice(3)]}
 		holder = act
 		ob, _ = ToObject(act)
+	case 2:
+		// ... and so is every other vocabulary type (a question, a place, a page, an activity ...)
+		ti := 2 + vpChoice(len(vpTypeNames)-3)
+		h := vpNew(ti)
+		vpSetID(h, id)
+		holder = h
+		ob, _ = ToObject(h)
+		if ob == nil {
+			vpReach("end")
+			return
+		}
 	}
 	set := vpBool()
 	if set {
